@@ -186,6 +186,8 @@ def gen_case(rng, kind="field"):
         if name not in ("truediv", "floordiv"):
             f_idx = 3 if name == "pow" else 0
             ops.append({"op": "bins", "name": name, "f": f_idx, "c": gen_scalar(rng, "rpow" if name == "pow" else name, dt), "rev": True})
+    for lo, hi in gen_bounds(rng, dt):
+        ops.append({"op": "clip", "f": 0, "lo": lo, "hi": hi})
     ops.append({"op": "unite", "f": 0, "g": 1})
     ops.append({"op": "flexible_addsub", "f": 0, "g": 1, "neg": True})
     ops.append({"op": "flexible_addsub", "f": 1, "g": 0, "neg": False})
@@ -208,6 +210,22 @@ def gen_case(rng, kind="field"):
             o["g"] = 1
         ops.append(o)
     return case
+
+
+def gen_bounds(rng, dt):
+    """clip bounds [value, kind] (lo <= hi), one of them may be missing"""
+    out = []
+    for _ in range(2):
+        a, b = sorted([rng.randint(-6, 6), rng.randint(-6, 6)])
+        kind = rng.choice(["i", "f"])
+        lo = [L.frs(Fraction(a, 2)) if kind == "f" else str(a // 2), kind]
+        kind = rng.choice(["i", "f"])
+        hi = [L.frs(Fraction(b + 1, 2)) if kind == "f" else str((b + 1) // 2 + 1), kind]
+        if Fraction(lo[0]) > Fraction(hi[0]):
+            lo, hi = [hi[0], hi[1]], [lo[0], lo[1]]
+        r = rng.random()
+        out.append((None, hi) if r < 0.2 else ((lo, None) if r < 0.4 else (lo, hi)))
+    return out
 
 
 def gen_scalar(rng, name, dt):
@@ -317,6 +335,8 @@ def gen_mcase(rng):
         ops.append({"op": "ms_vdot", "a": a, "b": b})
     ops.append({"op": "ms_sum", "a": 0})
     ops.append({"op": "msize", "a": 0})
+    for lo, hi in gen_bounds(rng, "f")[:1]:
+        ops.append({"op": "mclip", "a": 0, "lo": lo, "hi": hi})
     for a in (0, 1, 3):
         ops.append({"op": "ms_all", "a": a})
         ops.append({"op": "ms_any", "a": a})
@@ -506,6 +526,8 @@ def expected_numpy(built, op):
         return ("value", r, list(range(n)))
     if name == "scale":
         return ("value", L.py_scalar(op["c"]) * a, list(range(n)))
+    if name == "clip":
+        return ("value", np.clip(a, L.py_bound(op.get("lo")), L.py_bound(op.get("hi"))), list(range(n)))
     if name in ("unite", "flexible_addsub"):
         g = built.fields[op["g"]]
         if g.domain is not dom:
@@ -554,6 +576,8 @@ def expected_multi(built, op):
         except Exception as e:  # noqa: BLE001
             return ("raises", type(e).__name__)
         return ("mvalue", out)
+    if name == "mclip":
+        return ("mvalue", {k: np.clip(arrs[k], L.py_bound(op.get("lo")), L.py_bound(op.get("hi"))) for k in keys})
     if name == "mun":
         u = op["name"]
         if u == "imag" and any(a.dtype.kind != "c" for a in arrs.values()):
@@ -592,7 +616,7 @@ def check_op(built, op):
     except Exception as e:  # noqa: BLE001
         err = type(e).__name__
     sig = {"op": name if "name" not in op else f"{name}:{op['name']}"}
-    label = f"{sig['op']}({', '.join(f'{k}={op[k]}' for k in ('spaces', 'power', 'ord', 'c', 'rev') if k in op)})"
+    label = f"{sig['op']}({', '.join(f'{k}={op[k]}' for k in ('spaces', 'power', 'ord', 'c', 'rev', 'lo', 'hi') if k in op)})"
     if exp[0] == "raises":
         if err is None:
             return (f"{label}: operands on different domains (or an operation NumPy refuses) were accepted",
